@@ -31,9 +31,15 @@ def scenario(b, variant):
             proxies[key] = None         # explicit None entry
         elif variant == 2:
             proxies[key] = ''
+    env = None
+    if variant == 3:        # the mapping is taken from the environment (proxies=None)
+        env = {k: v for k, v in (('HTTP_PROXY', proxies.get('http')), ('HTTPS_PROXY', proxies.get('https'))) if v}
+        proxies = 'env'
     sc = {"url": url, "ws_kwargs": {"proxies": proxies},
           "conns": [{"net": list(b['script']['net']), "writes": list(b['script']['writes']), "steps": [{"kind": "eof"}]}],
           "connect_kwargs": {"ping_rate": 0, "close_timeout": None}}
+    if env is not None:
+        sc['env'] = env
     if b['script']['reply'] != 'none':
         sc['conns'][0]['proxy_reply'] = {"cls": b['script']['reply'], "cut": b['script']['cut']}
     entry = b['entry']
@@ -48,7 +54,7 @@ def run(tier, seed):
     r = pipeline.Run('C19', tier, seed)
     r.rule = ('every behaviour of spec/Proxy.tla: 4 targets (ws/wss, default/explicit port) x 6 proxy mappings (http only, https only, both, '
               'none, credentials, default ports) x proxy connect refused / CONNECT write error / 13 answer classes x 3 ways of cutting the answer '
-              'into reads, each with mapping spelled with missing / None / empty entries; non-trivial = distinct behaviours that used a proxy')
+              'into reads, each with the mapping spelled with missing / None / empty entries and taken from HTTP_PROXY / HTTPS_PROXY in the environment; non-trivial = distinct behaviours that used a proxy')
     r.assumptions = ['Proxy-Authorization and other CONNECT headers are not constrained by C19', 'sockets on proxy failure paths are not required to be closed by C19']
     cfg = ("SPECIFICATION Spec\nCONSTANTS Targets <- MCTargets\n Mappings <- MCMappings\n ReplyClasses = {%s}\n Cuts <- MCCuts\n"
            "INVARIANT NothingBeforeTunnel\nINVARIANT ProxyOnlyWhenConfigured\nINVARIANT Emit\nCHECK_DEADLOCK FALSE\n"
@@ -59,7 +65,7 @@ def run(tier, seed):
         raise pipeline.MachineryFailure('Proxy.tla violates %s' % res.violated)
     jobs = []
     for b in beh:
-        for variant in ((0, 1) if q else (0, 1, 2)):
+        for variant in ((0, 1, 3) if q else (0, 1, 2, 3)):
             sc, exp = scenario(b, variant)
             jobs.append((b, sc, exp))
     logs = pipeline.execute([j[1] for j in jobs])
